@@ -6,6 +6,8 @@
    3..8, size^2 squares, only tops may be walls/capstones), EVERY move value
    (any integers as coordinates, any type, any integer list as drops). *)
 From Coq Require Import ZArith List.
+(* tie G: the regenerated DIRECTIONS / MoveType values / default piece counts equal the model's (closed by computation) *)
+From TV Require gen.Consts proofs.TieGame.
 From TV Require Import model.Tak spec.Rules proofs.MoveRules.
 Import ListNotations.
 Open Scope Z_scope.
